@@ -573,8 +573,8 @@ func deriveTripCount(loop *Loop) {
 			isDead := false
 			if isUpCounting {
 				// Condition: i < limit. Loop runs if Start < Limit.
-				if startC.Cmp(limitC) >= 0 {
-					// Condition is false immediately.
+				if startC.Cmp(limitC) > 0 || (!isInclusive && startC.Cmp(limitC) == 0) {
+					// Condition is false immediately (`i <= limit` still runs once from start == limit).
 					isDead = true
 				} else if stepC.Sign() <= 0 {
 					// Start < Limit, but step is negative (or zero). Diverges.
@@ -583,7 +583,7 @@ func deriveTripCount(loop *Loop) {
 				}
 			} else {
 				// Condition: i > limit. Loop runs if Start > Limit.
-				if startC.Cmp(limitC) <= 0 {
+				if startC.Cmp(limitC) < 0 || (!isInclusive && startC.Cmp(limitC) == 0) {
 					isDead = true
 				} else if stepC.Sign() >= 0 {
 					// Start > Limit, but step is positive. Diverges.
